@@ -4,7 +4,7 @@ use super::c05::gen_container;
 use crate::enc;
 use crate::ev::{hex, par_cases, Ctx, Obs};
 use crate::mon;
-use crate::rng::{fnv, Rng};
+use crate::rng::{fnv, mix, Rng};
 use crate::volgen::{gen_volume, ElevPattern, VolParams};
 use nexrad_data::aws::realtime::Chunk;
 use nexrad_data::volume::{split_compressed_records, File, Record};
@@ -494,5 +494,35 @@ trivial = empty input; distinct = distinct input contents; families: every lengt
             obs.sample(json!({"family": family, "len": input.len(), "input": crate::ev::hex_abbrev(&input, 48)}));
         }
     });
+    // One set of records shared by all worker threads, decompressed over and over: three dozen
+    // records of a megabyte each and a few of twenty, picked at random by every thread at once -
+    // the same record often on several threads, more decompressed bytes in total than any
+    // reasonable process-wide budget would keep.  The statement's claim here is only that every
+    // call returns (a value or an error) without crashing; the sizes are checked as well.
+    {
+        let mut rng = Rng::derive(seed, 6, 0x5e7);
+        let mut set: Vec<(Vec<u8>, usize)> = Vec::new();
+        for k in 0..ctx.tier.pick(40usize, 120) {
+            let n = if k % 10 == 9 { 20 << 20 } else { (1 << 20) + k * 4096 };
+            let word = rng.bytes(rng.clone().urange(1, 24));
+            let payload: Vec<u8> = word.iter().cycle().take(n).cloned().collect();
+            set.push((enc::ldm_record(&enc::bzip2_compress(&payload, 1), k % 2 == 0), n));
+        }
+        let rounds: u64 = ctx.tier.pick(1_400, 24_000);
+        let set = &set;
+        par_cases(ctx, rounds, |i, obs| {
+            let mut rng = Rng::derive(seed, 66, i);
+            let k = if rng.chance(1, 24) { 9 + 10 * rng.usize_below(set.len() / 10) } else { rng.usize_below(set.len()) };
+            let (rec, n) = &set[k];
+            obs.case(mix(0x5e7, k as u64));
+            let got = call(obs, "Record::decompress", "shared-set-of-large-records", &rec[..rec.len().min(256)], || Record::new(rec.clone()).decompress().map(|r| r.data().len()));
+            match got {
+                Some(Ok(len)) if len == *n => obs.count("decompressions_of_a_record_shared_by_all_threads", 1),
+                Some(Ok(len)) => obs.violation("Record::decompress of a record shared by all threads returns another length", format!("record {} expands to {} bytes, got {}", k, n, len), json!({"family": "shared-set-of-large-records", "record": k})),
+                Some(Err(e)) => obs.violation("Record::decompress refuses a well-formed record shared by all threads", format!("{e:?}"), json!({"family": "shared-set-of-large-records", "record": k})),
+                None => {}
+            }
+        });
+    }
     ctx.obs.max("case_cpu_ms", mon::MAX_CASE_CPU_MS.load(std::sync::atomic::Ordering::Relaxed));
 }
